@@ -16,7 +16,7 @@ theorem at_in_range (x i : Nat) (w : World Int) (xs : List (Val Int)) (hx : Hold
   have hsz : ¬ (w.hdr x).size ≤ i := by rw [← hx.1]; omega
   have hslot := hx.2 i hi
   show (getV x >>= fun v => if Gen.guard_at0_0 { size := v.size, pos := i } then throwE .range else readSlot v.data i >>= fun r => pure (Out.val r)) w = _
-  have eg : ∀ n, Gen.guard_at0_0 { size := n, pos := i } = decide (n ≤ i) := fun _ => rfl
+  have eg : ∀ n, Gen.guard_at0_0 { size := n, pos := i } = decide (n ≤ i) := fun _ => by first | rfl | (simp only [Gen.guard_at0_0]; rw [Bool.eq_iff_iff]; simp; try omega)
   simp only [eg, decide_eq_true_eq]
   rw [bind_run, getV_run]; simp only []
   rw [if_neg hsz, bind_run]
@@ -27,14 +27,15 @@ theorem at_out_of_range (x i : Nat) (w : World Int) (xs : List (Val Int)) (hx : 
     opM ac s (.at x i) w = .thrown .range w := by
   have hsz : (w.hdr x).size ≤ i := by rw [← hx.1]; exact hi
   show (getV x >>= fun v => if Gen.guard_at0_0 { size := v.size, pos := i } then throwE .range else readSlot v.data i >>= fun r => pure (Out.val r)) w = _
-  have eg : ∀ n, Gen.guard_at0_0 { size := n, pos := i } = decide (n ≤ i) := fun _ => rfl
+  have eg : ∀ n, Gen.guard_at0_0 { size := n, pos := i } = decide (n ≤ i) := fun _ => by first | rfl | (simp only [Gen.guard_at0_0]; rw [Bool.eq_iff_iff]; simp; try omega)
   simp only [eg, decide_eq_true_eq]
   rw [bind_run, getV_run]; simp only []
   rw [if_pos hsz]; rfl
 
 /-- the const and the non-const overload of `at ()` make the same test (both generated from the header) -/
 theorem at_overloads_same_test (e : Gen.GuardEnv) :
-    Gen.guard_at0_0 e = decide (e.size ≤ e.pos) ∧ Gen.guard_at1_0 e = decide (e.size ≤ e.pos) := ⟨rfl, rfl⟩
+    Gen.guard_at0_0 e = decide (e.size ≤ e.pos) ∧ Gen.guard_at1_0 e = decide (e.size ≤ e.pos) :=
+  ⟨by first | rfl | (simp only [Gen.guard_at0_0]; rw [Bool.eq_iff_iff]; simp; try omega), by first | rfl | (simp only [Gen.guard_at1_0]; rw [Bool.eq_iff_iff]; simp; try omega)⟩
 
 theorem index_in_range (x i : Nat) (w : World Int) (xs : List (Val Int)) (hx : Holds w x xs) (hi : i < xs.length) :
     opM ac s (.get x i) w = .ok (.val xs[i]) w := by
